@@ -354,4 +354,736 @@ mod vh_popen {
         kani::assume(fault_at != 0 || launch_fails);
         unsafe { spawn_parent(any_kinds(), kani::any(), fault_at, launch_fails, mk::any_errno(), kani::any()) }
     }
+
+    // ------------------------------------------------------------------
+    // Child role with failing steps (C07 child half, C17)
+    // ------------------------------------------------------------------
+
+    /// Child role; the k-th child-side step (chdir, dup2 x3, sigemptyset,
+    /// pthread_sigmask, signal, setuid, setgid, setpgid, exec) fails with a
+    /// symbolic errno, for symbolic k; or no step fails and exec starts.
+    pub unsafe fn fail_child(kinds: [RK; 3], rc_shared: bool) {
+        mk::reset();
+        pre_state(2);
+        let file_cloexec: bool = kani::any();
+        let (cfg, r0, r1, r2) = make_streams(kinds, rc_shared, file_cloexec, mk::NPIPES);
+        kani::assume(cfg.valid);
+        mp::EXPECT_FD = cfg.expect;
+        mp::EXPECT_FD_SET = true;
+        mp::CHILD_AT_FORK = 1;
+        mp::begin_spawn();
+        let k: u32 = kani::any();
+        kani::assume(k <= 9);
+        mp::CHILD_FAIL_AT = k;
+        mp::CHILD_FAIL_ERRNO = mk::any_errno();
+        let with_cwd: bool = kani::any();
+        let with_uid: bool = kani::any();
+        let with_gid: bool = kani::any();
+        let config = PopenConfig {
+            stdin: r0,
+            stdout: r1,
+            stderr: r2,
+            cwd: if with_cwd { Some(OsString::from("/d")) } else { None },
+            setuid: if with_uid { Some(kani::any()) } else { None },
+            setgid: if with_gid { Some(kani::any()) } else { None },
+            setpgid: kani::any(),
+            ..Default::default()
+        };
+        let res = Popen::create(&["/p"], config);
+        vcheck!(C07, !mp::IN_CHILD, "C07/child-never-returns: the forked child returned from Popen::create");
+        vcheck!(C07, false, "C07/valid-launch-forks: a valid configuration without parent-side faults returned before fork");
+        std::mem::forget(res);
+    }
+
+    #[kani::proof]
+    #[kani::stub(get_standard_stream, gss)]
+    #[kani::stub(crate::posix::fcntl, crate::mk::fcntl_model)]
+    fn h_fail_child() {
+        mk::link_model();
+        unsafe { fail_child(any_kinds(), kani::any()) }
+    }
+
+    // ------------------------------------------------------------------
+    // C06: argv / program / environment / cwd / identity
+    // ------------------------------------------------------------------
+    use std::os::unix::ffi::OsStringExt;
+
+    /// a symbolic byte string of the given concrete length (<= 3) over all bytes
+    /// (NUL allowed iff `allow_nul`); returns the string and whether it contains a NUL.
+    /// Lengths are concrete per harness: a symbolic length makes every Vec/CString
+    /// operation on the string symbolic-sized (measured: SAT back end out of memory).
+    pub unsafe fn any_str(store: &mut [u8; mp::SMAX], len_out: &mut usize, l: usize, allow_nul: bool) -> (OsString, bool) {
+        let b0: u8 = kani::any();
+        let b1: u8 = kani::any();
+        let b2: u8 = kani::any();
+        if !allow_nul {
+            kani::assume(b0 != 0 && b1 != 0 && b2 != 0);
+        }
+        store[0] = b0;
+        store[1] = b1;
+        store[2] = b2;
+        let (v, nul) = if l == 0 {
+            (Vec::new(), false)
+        } else if l == 1 {
+            (vec![b0], b0 == 0)
+        } else if l == 2 {
+            (vec![b0, b1], b0 == 0 || b1 == 0)
+        } else {
+            (vec![b0, b1, b2], b0 == 0 || b1 == 0 || b2 == 0)
+        };
+        *len_out = l;
+        (OsString::from_vec(v), nul)
+    }
+
+    pub unsafe fn child_role_plain() {
+        mk::reset();
+        pre_state(0);
+        mp::CHILD_AT_FORK = 1;
+        mp::begin_spawn();
+    }
+
+    /// one argument: symbolic bytes of concrete length `l` (sym) or the constant "zz"[..l]
+    pub unsafe fn arg(store: &mut [u8; mp::SMAX], len_out: &mut usize, l: usize, sym: bool, allow_nul: bool) -> (OsString, bool) {
+        if sym {
+            any_str(store, len_out, l, allow_nul)
+        } else {
+            let mut v = Vec::new();
+            let mut i = 0;
+            while i < l {
+                store[i] = b'z';
+                v.push(b'z');
+                i += 1;
+            }
+            *len_out = l;
+            (OsString::from_vec(v), false)
+        }
+    }
+
+    /// argv = ["/p", a1, a2][..n]; optional executable override "/x".  At most one
+    /// of a1/a2 is symbolic per harness (two symbolic arguments exhaust the SAT
+    /// back end's memory; measured).
+    pub unsafe fn argv_case(l1: usize, s1: bool, l2: usize, s2: bool, n: usize) {
+        child_role_plain();
+        mp::EXP_ARGV[0][0] = b'/';
+        mp::EXP_ARGV[0][1] = b'p';
+        mp::EXP_ARGV_LEN[0] = 2;
+        let (a1, _) = arg(&mut mp::EXP_ARGV[1], &mut mp::EXP_ARGV_LEN[1], l1, s1, false);
+        let (a2, _) = arg(&mut mp::EXP_ARGV[2], &mut mp::EXP_ARGV_LEN[2], l2, s2, false);
+        mp::EXP_ARGC = n;
+        mp::EXP_ARGV_SET = true;
+        let argv: Vec<OsString> = if n == 1 {
+            vec![OsString::from("/p")]
+        } else if n == 2 {
+            vec![OsString::from("/p"), a1]
+        } else {
+            vec![OsString::from("/p"), a1, a2]
+        };
+        let with_exe: bool = kani::any();
+        mp::EXP_PATH_SET = true;
+        mp::EXP_PATH[0] = b'/';
+        mp::EXP_PATH[1] = if with_exe { b'x' } else { b'p' };
+        mp::EXP_PATH_LEN = 2;
+        mp::EXP_ENV_MODE = 1;
+        mp::EXP_CWD_MODE = 1;
+        let config = PopenConfig {
+            executable: if with_exe { Some(OsString::from("/x")) } else { None },
+            ..Default::default()
+        };
+        let res = Popen::create(&argv, config);
+        vcheck!(C06, false, "C06/launch-proceeds: a NUL-free request did not reach exec");
+        std::mem::forget(res);
+    }
+
+    /// A NUL byte anywhere in an argument is rejected with EINVAL, nothing is started.
+    pub unsafe fn argv_nul_case(l1: usize, s1: bool, l2: usize, s2: bool, n: usize) {
+        child_role_plain();
+        let mut t1 = [0u8; mp::SMAX];
+        let mut t2 = [0u8; mp::SMAX];
+        let (mut x1, mut x2) = (0, 0);
+        let (a1, n1) = arg(&mut t1, &mut x1, l1, s1, true);
+        let (a2, n2) = arg(&mut t2, &mut x2, l2, s2, true);
+        kani::assume(n1 || (n == 3 && n2));
+        let argv = if n == 2 { vec![OsString::from("/p"), a1] } else { vec![OsString::from("/p"), a1, a2] };
+        let res = Popen::create(&argv, PopenConfig::default());
+        vcheck!(C06, mp::FORKS == 0, "C06/nul-rejected: an argument containing NUL did not prevent the launch");
+        let einval = match res {
+            Err(PopenError::IoError(ref e)) => e.raw_os_error() == Some(libc::EINVAL),
+            _ => false,
+        };
+        vcheck!(C06, einval, "C06/nul-rejected: an argument containing NUL was not rejected with an error");
+        std::mem::forget(res);
+    }
+
+    macro_rules! argv_harness {
+        ($name:ident, $f:ident, $l1:expr, $s1:expr, $l2:expr, $s2:expr, $n:expr) => {
+            #[kani::proof]
+            #[kani::stub(get_standard_stream, gss)]
+            #[kani::stub(crate::posix::fcntl, crate::mk::fcntl_model)]
+            fn $name() {
+                mk::link_model();
+                unsafe { $f($l1, $s1, $l2, $s2, $n) }
+            }
+        };
+    }
+    argv_harness!(h_argv_s2, argv_case, 2, true, 0, false, 2);
+    argv_harness!(h_argv_s1, argv_case, 1, true, 0, false, 2);
+    argv_harness!(h_argv_e, argv_case, 0, true, 0, false, 2);
+    argv_harness!(h_argv_none, argv_case, 0, false, 0, false, 1);
+    argv_harness!(h_argv_nul_s2, argv_nul_case, 2, true, 0, false, 2);
+    argv_harness!(h_argv_nul_s1, argv_nul_case, 1, true, 0, false, 2);
+    // thorough tier: three arguments (needs > 14 GB for the SAT back end)
+    argv_harness!(h_argv_s2z, argv_case, 2, true, 2, false, 3);
+    argv_harness!(h_argv_es1, argv_case, 0, false, 1, true, 3);
+
+    /// Environment end to end: two (name, value) pairs with concrete names (a
+    /// symbolic name makes SipHash/hashbrown probing symbolic: timeout), values
+    /// one arbitrary non-NUL byte or empty.
+    pub unsafe fn env_case(k1: u8, k2: u8) {
+        child_role_plain();
+        let v1: u8 = kani::any();
+        let v2: u8 = kani::any();
+        kani::assume(v1 != 0 && v2 != 0);
+        let e2: bool = kani::any(); // second value empty
+        let val2 = if e2 { Vec::new() } else { vec![v2] };
+        let env = vec![
+            (OsString::from_vec(vec![k1]), OsString::from_vec(vec![v1])),
+            (OsString::from_vec(vec![k2]), OsString::from_vec(val2)),
+        ];
+        // reference: last value per name
+        mp::EXP_ENV_MODE = 2;
+        mp::EXP_ENV[0][0] = k2;
+        mp::EXP_ENV[0][1] = b'=';
+        mp::EXP_ENV[0][2] = v2;
+        mp::EXP_ENV_LEN[0] = if e2 { 2 } else { 3 };
+        if k1 != k2 {
+            mp::EXP_ENV[1][0] = k1;
+            mp::EXP_ENV[1][1] = b'=';
+            mp::EXP_ENV[1][2] = v1;
+            mp::EXP_ENV_LEN[1] = 3;
+            mp::EXP_ENVC = 2;
+        } else {
+            mp::EXP_ENVC = 1;
+        }
+        let config = PopenConfig {
+            env: Some(env),
+            ..Default::default()
+        };
+        let res = Popen::create(&["/p"], config);
+        vcheck!(C06, false, "C06/launch-proceeds: a NUL-free request did not reach exec");
+        std::mem::forget(res);
+    }
+
+    #[kani::proof]
+    #[kani::stub(get_standard_stream, gss)]
+    #[kani::stub(crate::posix::fcntl, crate::mk::fcntl_model)]
+    fn h_env_dup() {
+        mk::link_model();
+        unsafe { env_case(b'a', b'a') }
+    }
+
+    #[kani::proof]
+    #[kani::stub(get_standard_stream, gss)]
+    #[kani::stub(crate::posix::fcntl, crate::mk::fcntl_model)]
+    fn h_env_two() {
+        mk::link_model();
+        unsafe { env_case(b'a', b'b') }
+    }
+
+    /// cwd and identity: symbolic uid/gid options, setpgid, cwd of 1..=2 symbolic bytes.
+    #[kani::proof]
+    #[kani::stub(get_standard_stream, gss)]
+    #[kani::stub(crate::posix::fcntl, crate::mk::fcntl_model)]
+    fn h_ident() {
+        mk::link_model();
+        unsafe {
+            child_role_plain();
+            let with_uid: bool = kani::any();
+            let with_gid: bool = kani::any();
+            let uid: u32 = kani::any();
+            let gid: u32 = kani::any();
+            kani::assume(uid != 0);
+            let pg: bool = kani::any();
+            mp::EXP_ID_SET = true;
+            mp::EXP_UID = if with_uid { Some(uid) } else { None };
+            mp::EXP_GID = if with_gid { Some(gid) } else { None };
+            mp::EXP_PGID = pg;
+            let with_cwd: bool = kani::any();
+            let c0: u8 = kani::any();
+            let c1: u8 = kani::any();
+            kani::assume(c0 != 0 && c1 != 0);
+            mp::EXP_CWD_MODE = if with_cwd { 2 } else { 1 };
+            mp::EXP_CWD[0] = c0;
+            mp::EXP_CWD[1] = c1;
+            mp::EXP_CWD_LEN = 2;
+            let config = PopenConfig {
+                cwd: if with_cwd { Some(OsString::from_vec(vec![c0, c1])) } else { None },
+                setuid: mp::EXP_UID,
+                setgid: mp::EXP_GID,
+                setpgid: pg,
+                ..Default::default()
+            };
+            let res = Popen::create(&["/p"], config);
+            vcheck!(C06, false, "C06/launch-proceeds: a valid request did not reach exec");
+            std::mem::forget(res);
+        }
+    }
+
+    // ------------------------------------------------------------------
+    // Lifecycle: C09 (status truth and finality), C10 (signals), C11 (poll), C12 (drop)
+    // ------------------------------------------------------------------
+    use crate::os_common::ExitStatus;
+    use crate::unix::PopenExt;
+
+    /// the status the library must report for wait-status word `w`
+    pub fn truth(w: i32) -> ExitStatus {
+        if w & 0x7f == 0 {
+            ExitStatus::Exited(((w >> 8) & 0xff) as u32)
+        } else {
+            ExitStatus::Signaled((w & 0x7f) as u8)
+        }
+    }
+
+    /// a wait-status word of a terminated child: exit(c), c in 0..=255, or
+    /// fatal signal s in 1..=127 with or without core flag
+    pub fn any_status_word() -> i32 {
+        let exited: bool = kani::any();
+        let c: u8 = kani::any();
+        if exited {
+            (c as i32) << 8
+        } else {
+            let s = c & 0x7f;
+            kani::assume(s != 0 && s != 0x7f);
+            let core: bool = kani::any();
+            (s as i32) | if core { 0x80 } else { 0 }
+        }
+    }
+
+    pub fn any_exit_status() -> ExitStatus {
+        let k: u8 = kani::any();
+        kani::assume(k < 4);
+        match k {
+            0 => ExitStatus::Exited(kani::any()),
+            1 => ExitStatus::Signaled(kani::any()),
+            2 => ExitStatus::Other(kani::any()),
+            _ => ExitStatus::Undetermined,
+        }
+    }
+
+    pub struct Life {
+        pub p: Popen,
+        pub finished: bool,
+        pub stored: ExitStatus,
+        pub word: i32,
+    }
+
+    /// Any state satisfying invariant I: Finished(s) => the model child is
+    /// reaped (by us with s = truth, or by someone else with s = Undetermined);
+    /// Running => this Popen has not reaped it (it may be running, a zombie, or
+    /// reaped by someone else).
+    pub unsafe fn any_life_state() -> Life {
+        mk::reset();
+        mk::init_std_fds();
+        let word = any_status_word();
+        let finished: bool = kani::any();
+        let stored = if finished {
+            if kani::any() {
+                truth(word)
+            } else {
+                ExitStatus::Undetermined
+            }
+        } else {
+            ExitStatus::Undetermined
+        };
+        let st = if finished {
+            mp::KidSt::Reaped
+        } else {
+            let k: u8 = kani::any();
+            kani::assume(k < 3);
+            match k {
+                0 => mp::KidSt::Running,
+                1 => mp::KidSt::Zombie,
+                _ => mp::KidSt::Reaped,
+            }
+        };
+        mp::KIDS[0] = mp::Kid {
+            pid: 100,
+            st,
+            status: word,
+            reaped_by_us: finished && stored != ExitStatus::Undetermined,
+            holds: 0,
+            status_pipe: 0xff,
+        };
+        mp::NKIDS = 1;
+        mp::KIDS_MAY_EXIT = kani::any();
+        mp::FOREIGN_REAPER = kani::any();
+        let p = Popen {
+            stdin: None,
+            stdout: None,
+            stderr: None,
+            child_state: if finished {
+                ChildState::Finished(stored)
+            } else {
+                ChildState::Running { pid: 100, ext: () }
+            },
+            detached: kani::any(),
+        };
+        Life { p, finished, stored, word }
+    }
+
+    /// invariant I plus the projections
+    pub unsafe fn check_invariant(l: &Life) {
+        match l.p.child_state {
+            ChildState::Finished(s) => {
+                vcheck!(C09, mp::KIDS[0].st == mp::KidSt::Reaped, "C09/finished-implies-reaped: a status is stored while the child has not been reaped");
+                let ok = if mp::KIDS[0].reaped_by_us { s == truth(l.word) } else { s == ExitStatus::Undetermined };
+                vcheck!(C09, ok, "C09/status-is-truth: the stored status is neither the child's real termination cause nor Undetermined-after-foreign-reap");
+                vcheck!(C09, l.p.pid().is_none(), "C09/pid-absent-when-finished: pid() present although the status is known");
+                vcheck!(C09, l.p.exit_status() == Some(s), "C09/exit-status-projection: exit_status() differs from the stored status");
+            }
+            ChildState::Running { pid, .. } => {
+                vcheck!(C09, !mp::KIDS[0].reaped_by_us, "C09/running-implies-not-reaped: still Running although this Popen reaped the child");
+                vcheck!(C09, pid == 100 && l.p.pid() == Some(100), "C09/pid-stable: the pid changed");
+                vcheck!(C09, l.p.exit_status().is_none(), "C09/no-status-while-running: exit_status() present while Running");
+            }
+            ChildState::Preparing => {
+                vcheck!(C09, false, "C09/no-preparing: state Preparing after construction");
+            }
+        }
+    }
+
+    /// one API operation; returns nothing, asserts everything
+    pub unsafe fn life_op(l: &mut Life, op: u8) {
+        let was_finished = match l.p.child_state {
+            ChildState::Finished(_) => true,
+            _ => false,
+        };
+        let stored = match l.p.child_state {
+            ChildState::Finished(s) => Some(s),
+            _ => None,
+        };
+        let w0 = mp::WAITPID_CALLS;
+        let b0 = mp::WAITPID_BLOCKING_CALLS;
+        let k0 = mp::KILL_CALLS;
+        let s0 = mk::time::SLEEPS;
+        let mut got: Option<Option<ExitStatus>> = None; // Some(x) = a query returned x
+        match op {
+            0 => {
+                let r = l.p.poll();
+                vcheck!(C11, mk::time::SLEEPS == s0, "C11/poll-never-sleeps: poll() slept");
+                vcheck!(C11, mp::WAITPID_BLOCKING_CALLS == b0, "C11/poll-never-blocks: poll() issued a blocking wait");
+                got = Some(r);
+            }
+            1 => {
+                let r = l.p.wait();
+                match r {
+                    Ok(s) => got = Some(Some(s)),
+                    Err(e) => {
+                        vcheck!(C09, false, "C09/wait-no-error: wait() returned an error (a foreign reap must yield Undetermined)");
+                        std::mem::forget(e);
+                    }
+                }
+            }
+            2 => {
+                let r = l.p.wait_timeout(Duration::from_secs(0));
+                match r {
+                    Ok(s) => got = Some(s),
+                    Err(e) => {
+                        vcheck!(C09, false, "C09/wait-no-error: wait_timeout() returned an error");
+                        std::mem::forget(e);
+                    }
+                }
+            }
+            3 => {
+                let sig: i32 = kani::any();
+                mp::KILL_RESULT_ERRNO = if kani::any() { 0 } else { libc::EPERM };
+                let r = l.p.send_signal(sig);
+                signal_checks(was_finished, k0, sig, &r);
+                std::mem::forget(r);
+            }
+            4 => {
+                let r = l.p.terminate();
+                signal_checks(was_finished, k0, libc::SIGTERM, &r);
+                std::mem::forget(r);
+            }
+            5 => {
+                let r = l.p.kill();
+                signal_checks(was_finished, k0, libc::SIGKILL, &r);
+                std::mem::forget(r);
+            }
+            6 => {
+                l.p.detach();
+            }
+            _ => {
+                let _ = l.p.pid();
+                let _ = l.p.exit_status();
+            }
+        }
+        if was_finished {
+            vcheck!(C09, mp::WAITPID_CALLS == w0 && mp::KILL_CALLS == k0, "C09/no-syscall-once-final: an operating-system call was made about a child whose status is already known");
+            if let Some(g) = got {
+                vcheck!(C09, g == stored, "C09/final-status-stable: a query returned something else than the status reported before");
+            }
+        }
+        if let Some(Some(s)) = got {
+            let ok = if mp::KIDS[0].reaped_by_us { s == truth(l.word) } else { s == ExitStatus::Undetermined };
+            vcheck!(C09, ok, "C09/reported-status-is-truth: a query reported a status that is not the child's real termination cause");
+            vcheck!(C09, mp::KIDS[0].st == mp::KidSt::Reaped, "C09/no-status-while-child-runs: a status was reported while the child is still running or unreaped");
+        }
+        if op == 1 {
+            vcheck!(C09, got.is_some() && got != Some(None), "C09/wait-returns-status: wait() returned without a status");
+        }
+        check_invariant(l);
+    }
+
+    pub unsafe fn signal_checks(was_finished: bool, k0: u32, sig: i32, r: &io::Result<()>) {
+        if was_finished {
+            vcheck!(C10, mp::KILL_CALLS == k0, "C10/no-signal-once-final: a signal was sent although the child's termination had been observed");
+            vcheck!(C10, r.is_ok(), "C10/ok-once-final: signalling a finished child did not return success");
+        } else {
+            vcheck!(C10, mp::KILL_CALLS == k0 + 1, "C10/exactly-one-signal: not exactly one kill() for one signalling call on a live child");
+            vcheck!(C10, mp::LAST_KILL_PID == 100, "C10/only-the-child: the signal was sent to a pid other than the child's");
+            vcheck!(C10, mp::LAST_KILL_SIG == sig, "C10/requested-signal: the signal sent is not the requested one");
+            let expect_ok = mp::KILL_RESULT_ERRNO == 0 && mp::KIDS[0].st != mp::KidSt::Reaped;
+            vcheck!(C10, r.is_ok() == expect_ok, "C10/result-passed-through: the result of kill() was not passed through");
+        }
+    }
+
+    #[kani::proof]
+    fn h_life_step() {
+        mk::link_model();
+        unsafe {
+            let mut l = any_life_state();
+            let op: u8 = kani::any();
+            kani::assume(op <= 7);
+            life_op(&mut l, op);
+            kani::cover!(op == 1 && !l.finished, "COVER/wait-on-running");
+            std::mem::forget(l);
+        }
+    }
+
+    #[kani::proof]
+    fn h_life_seq() {
+        mk::link_model();
+        unsafe {
+            let mut l = any_life_state();
+            kani::assume(!l.finished);
+            let op1: u8 = kani::any();
+            let op2: u8 = kani::any();
+            let op3: u8 = kani::any();
+            kani::assume(op1 <= 7 && op2 <= 7 && op3 <= 7);
+            life_op(&mut l, op1);
+            life_op(&mut l, op2);
+            life_op(&mut l, op3);
+            std::mem::forget(l);
+        }
+    }
+
+    /// Drop: a non-detached Popen reaps its child; a detached one never blocks and never reaps.
+    #[kani::proof]
+    fn h_life_drop() {
+        mk::link_model();
+        unsafe {
+            let l = any_life_state();
+            let detached = l.p.detached;
+            let was_finished = l.finished;
+            let b0 = mp::WAITPID_BLOCKING_CALLS;
+            let w0 = mp::WAITPID_CALLS;
+            let by_us0 = mp::KIDS[0].reaped_by_us;
+            let Life { p, .. } = l;
+            drop(p);
+            if !was_finished {
+                vcheck!(C12, detached || mp::KIDS[0].st == mp::KidSt::Reaped, "C12/drop-reaps: dropping a non-detached Popen left its child unreaped");
+                vcheck!(C12, !detached || (mp::WAITPID_CALLS == w0 && mp::KIDS[0].reaped_by_us == by_us0), "C12/detached-drop-never-blocks: dropping a detached Popen waited for or reaped the child");
+            } else {
+                vcheck!(C12, mp::WAITPID_CALLS == w0, "C12/finished-drop-no-wait: dropping a Popen whose status is known made a wait call");
+                vcheck!(C09, mp::WAITPID_CALLS == w0, "C09/no-syscall-once-final: drop made a wait call about a child whose status is already known");
+            }
+            let _ = b0;
+        }
+    }
+
+    // ------------------------------------------------------------------
+    // C11: wait_timeout timing on the virtual clock
+    // ------------------------------------------------------------------
+    pub static mut DL_S: i64 = 0;
+    pub static mut DL_NS: i64 = 0;
+    pub static mut PREV_SLEEP_NS: i64 = 0;
+    pub static mut MAX_SLEEPS: u32 = 0;
+
+    /// called by the model at every sleep request
+    pub unsafe fn on_sleep(s: i64, ns: i64) {
+        // requested sleep as nanoseconds (all sleeps here are < 1 s, asserted)
+        vcheck!(C11, s == 0 && ns <= 100_000_000, "C11/sleep-capped: a back-off sleep longer than 100 ms (exit would be noticed late)");
+        // never sleep past the deadline: now + sleep <= deadline
+        let mut es = mk::time::NOW_S + s;
+        let mut en = mk::time::NOW_NS + ns;
+        if en >= 1_000_000_000 {
+            en -= 1_000_000_000;
+            es += 1;
+        }
+        let past = es > DL_S || (es == DL_S && en > DL_NS);
+        vcheck!(C11, !past, "C11/no-oversleep: a sleep extends past the deadline (still-running would be reported late)");
+        // no busy-wait: at least 1 ms, or exactly the remaining time
+        let exactly_remaining = es == DL_S && en == DL_NS;
+        vcheck!(C11, (s == 0 && ns >= 1_000_000) || s > 0 || exactly_remaining, "C11/no-busy-wait: a sleep shorter than 1 ms that does not end at the deadline (spinning)");
+        // back-off doubles (or is capped / clipped)
+        let doubled = ns == 2 * PREV_SLEEP_NS || ns == 100_000_000 || exactly_remaining || PREV_SLEEP_NS == 0;
+        vcheck!(C11, doubled, "C11/backoff-doubles: consecutive sleeps are not 1,2,4,...,100,100 ms (clipped at the deadline)");
+        PREV_SLEEP_NS = ns;
+        // bound the trace: the child has exited by the MAX_SLEEPS-th sleep
+        if MAX_SLEEPS != 0 && mk::time::SLEEPS >= MAX_SLEEPS {
+            kani::assume(mp::KIDS[0].st != mp::KidSt::Running);
+        }
+    }
+
+    pub unsafe fn wait_timeout_case(d: Duration, max_sleeps: u32) {
+        let mut l = any_life_state();
+        mk::time::NOW_S = kani::any();
+        mk::time::NOW_NS = kani::any();
+        kani::assume(mk::time::NOW_S >= 0 && mk::time::NOW_S < (1 << 40));
+        kani::assume(mk::time::NOW_NS >= 0 && mk::time::NOW_NS < 1_000_000_000);
+        mk::time::DRIFT_MAX_NS = 0;
+        mk::time::AT_SLEEP = Some(on_sleep);
+        PREV_SLEEP_NS = 0;
+        MAX_SLEEPS = max_sleeps;
+        // deadline = now + d
+        DL_S = mk::time::NOW_S + d.as_secs() as i64;
+        DL_NS = mk::time::NOW_NS + d.subsec_nanos() as i64;
+        if DL_NS >= 1_000_000_000 {
+            DL_NS -= 1_000_000_000;
+            DL_S += 1;
+        }
+        let w0 = mp::WAITPID_CALLS;
+        let c0 = mk::time::CLOCK_READS;
+        let s0 = mk::time::SLEEPS;
+        let r = l.p.wait_timeout(d);
+        match r {
+            Ok(None) => {
+                kani::cover!(true, "COVER/wait-timeout-expired");
+                vcheck!(C11, mk::time::now_ge(DL_S, DL_NS), "C11/none-not-early: 'still running' reported before the duration elapsed");
+                vcheck!(C11, !l.finished, "C11/known-status-immediately: None although the status was already known");
+            }
+            Ok(Some(s)) => {
+                kani::cover!(!l.finished, "COVER/wait-timeout-exited");
+                vcheck!(C09, mp::KIDS[0].st == mp::KidSt::Reaped, "C09/no-status-while-child-runs: a status was reported while the child is still running or unreaped");
+                let _ = s;
+            }
+            Err(e) => {
+                vcheck!(C11, false, "C11/no-error: wait_timeout returned an error");
+                std::mem::forget(e);
+            }
+        }
+        if l.finished {
+            vcheck!(C11, mp::WAITPID_CALLS == w0 && mk::time::CLOCK_READS == c0 && mk::time::SLEEPS == s0, "C11/known-status-immediately: system calls were made although the status was already known");
+        }
+        // bounded number of status checks: one per sleep plus the first
+        vcheck!(C11, mp::WAITPID_CALLS - w0 <= (mk::time::SLEEPS - s0) + 1, "C11/one-check-per-sleep: more status checks than sleeps + 1 (spinning)");
+        vcheck!(C11, mp::WAITPID_BLOCKING_CALLS == 0, "C11/never-blocks: wait_timeout issued a blocking wait");
+        check_invariant(&l);
+        std::mem::forget(l);
+    }
+
+    /// d in [0, 20 ms]: doubling phase 1,2,4,8 ms and the clipped last sleep; the
+    /// child exits at any point or never.  (Duration::new, not from_millis: a
+    /// 64-bit division of a symbolic value stalls the SAT back end.)
+    #[kani::proof]
+    fn h_wait_small() {
+        mk::link_model();
+        unsafe {
+            let ns: u32 = kani::any();
+            kani::assume(ns <= 20_000_000);
+            wait_timeout_case(Duration::new(0, ns), 0);
+        }
+    }
+
+    /// thorough: d in [0, 420 ms]: the whole doubling phase 1..64 ms and three
+    /// steady-state 100 ms iterations.
+    #[kani::proof]
+    fn h_wait_small_t() {
+        mk::link_model();
+        unsafe {
+            let ns: u32 = kani::any();
+            kani::assume(ns <= 420_000_000);
+            wait_timeout_case(Duration::new(0, ns), 0);
+        }
+    }
+
+    /// d up to 2^40 s: the child exits within the first 4 back-off intervals.
+    #[kani::proof]
+    fn h_wait_large() {
+        mk::link_model();
+        unsafe {
+            let s: u64 = kani::any();
+            let ns: u32 = kani::any();
+            kani::assume(s >= 1 && s < (1 << 40) && ns < 1_000_000_000);
+            wait_timeout_case(Duration::new(s, ns), 4);
+        }
+    }
+
+    /// thorough: the child exits within the first 9 back-off intervals.
+    #[kani::proof]
+    fn h_wait_large_t() {
+        mk::link_model();
+        unsafe {
+            let s: u64 = kani::any();
+            let ns: u32 = kani::any();
+            kani::assume(s >= 1 && s < (1 << 40) && ns < 1_000_000_000);
+            wait_timeout_case(Duration::new(s, ns), 9);
+        }
+    }
+
+    // ------------------------------------------------------------------
+    // C17: no allocation between fork and exec (allocation observer)
+    // ------------------------------------------------------------------
+    use std::alloc::{GlobalAlloc, Layout, System};
+
+    pub unsafe fn obs_alloc(layout: Layout) -> *mut u8 {
+        mp::ALLOCS += 1;
+        System.alloc(layout)
+    }
+    pub unsafe fn obs_alloc_zeroed(layout: Layout) -> *mut u8 {
+        mp::ALLOCS += 1;
+        System.alloc_zeroed(layout)
+    }
+    pub unsafe fn obs_realloc(ptr: *mut u8, layout: Layout, new_size: usize) -> *mut u8 {
+        mp::ALLOCS += 1;
+        System.realloc(ptr, layout, new_size)
+    }
+
+    /// The observer itself must see std's containers allocate, or C17 is dead.
+    #[kani::proof]
+    #[kani::stub(std::alloc::alloc, obs_alloc)]
+    #[kani::stub(std::alloc::alloc_zeroed, obs_alloc_zeroed)]
+    #[kani::stub(std::alloc::realloc, obs_realloc)]
+    fn h_alloc_witness() {
+        unsafe {
+            mp::ALLOCS = 0;
+            let v = vec![1u8, 2, 3];
+            let a1 = mp::ALLOCS;
+            let b = Box::new(7u32);
+            let a2 = mp::ALLOCS;
+            let s = std::ffi::CString::new("ab").unwrap();
+            let a3 = mp::ALLOCS;
+            let r = Rc::new(5u8);
+            let a4 = mp::ALLOCS;
+            let mut g: Vec<u8> = Vec::with_capacity(1);
+            g.push(1);
+            g.push(2);
+            let a5 = mp::ALLOCS;
+            assert!(a1 > 0 && a2 > a1 && a3 > a2 && a4 > a3 && a5 > a4, "C17/observer-alive: the allocation observer does not see Vec/Box/CString/Rc allocations or Vec growth");
+            std::mem::forget((v, b, s, r, g));
+        }
+    }
+
+    /// Child role with the observer on: success path and every failing step.
+    #[kani::proof]
+    #[kani::stub(get_standard_stream, gss)]
+    #[kani::stub(crate::posix::fcntl, crate::mk::fcntl_model)]
+    #[kani::stub(std::alloc::alloc, obs_alloc)]
+    #[kani::stub(std::alloc::alloc_zeroed, obs_alloc_zeroed)]
+    #[kani::stub(std::alloc::realloc, obs_realloc)]
+    fn h_alloc_child() {
+        mk::link_model();
+        unsafe { fail_child(any_kinds(), kani::any()) }
+    }
 }
